@@ -878,6 +878,14 @@ func (g *pgen) rloop() {
 			g.count("range loop reusing the names of a finished one")
 		}
 	}
+	shadow := ""
+	if len(g.rangeKeys) > 0 && r.chance(1, 5) {
+		// a nested loop that uses the enclosing loop's key name: the outer loop
+		// binds it again at its next iteration
+		shadow = g.rangeKeys[len(g.rangeKeys)-1]
+		k = shadow
+		g.count("nested range loop reusing the enclosing key name")
+	}
 	var srcs []struct {
 		path, kind string
 	}
@@ -897,6 +905,9 @@ func (g *pgen) rloop() {
 		}
 	}
 	form := r.intn(4)
+	if shadow != "" && form == 1 {
+		form = 0
+	}
 	switch form {
 	case 0:
 		g.emit("for " + k + ", " + v + " := range " + s.path + " {")
@@ -942,6 +953,9 @@ func (g *pgen) rloop() {
 	g.rangeVals = g.rangeVals[:nv]
 	g.lastK, g.lastV, g.lastKind = k, v, s.kind
 	g.emit("}")
+	if shadow != "" {
+		g.emit("probe(\"after-shadow\", " + shadow + ")")
+	}
 	g.count("range loop")
 }
 
